@@ -23,7 +23,9 @@ SAMPLE_RATES = [(1.0, "MHz"), (250.0, "kHz"), (4.0, "Hz"), (32.0, "MHz"),
                 (1.0, "Hz"), (1e6 / 3, "Hz"), (0.5, "MHz")]
 START_TIMES = [None, "2021-03-04T05:06:07.000000000", "2019-12-31T23:59:59.123456789",
                "2016-12-31T23:59:58.500000000"]
-CENTER_FREQS = [(400.0, "MHz"), (1.4, "GHz"), (800.0, "MHz"), (327.5, "MHz")]
+# the last two put the band across (or next to) 0 Hz, as for a signal already mixed to baseband
+CENTER_FREQS = [(400.0, "MHz"), (1.4, "GHz"), (800.0, "MHz"), (327.5, "MHz"), (0.0, "MHz"),
+                (1.5, "MHz")]
 LAYOUTS = ["C", "F", "strided", "reversed", "chanstrided"]
 
 
